@@ -162,12 +162,24 @@ Definition hc_okb (host : hostg) (p : prepared) : bool :=
   forallb (fun q => 0 <=? a_hc (snd q)) (gnodes host) && forallb (fun q => 0 <=? m_hc (snd q)) (gnodes (p_l p))
   && forallb (fun q => 0 <=? m_hc (snd q)) (gnodes (p_pat p)).
 
+(** the premises of the set-level invariance theorem (proof/C05_Result.v, [side_ok]) as one boolean: matcher graphs
+    well formed, the exhaustive enumeration below the threshold, rule graph with distinct ids, simple and closed edge
+    list, pattern nodes among the rule nodes.  Evaluated on every writing whose pattern has no explicit X-H bond. *)
+Definition closedb (rc : its) : bool :=
+  forallb (fun e : N * N * iedge => let '(a, b, _) := e in LGraph.mem a (node_ids rc) && LGraph.mem b (node_ids rc)) (gedges rc).
+Definition side_okb (host : hostg) (p : prepared) : bool :=
+  let H := host_c06 host in let P := pat_c06 (p_pat p) in
+  negb (p_flag p) && C06_Model.gwfb H && C06_Model.gwfb P
+  && (C06_Model.lenN (monos_on' H P (node_ids H) (node_ids P)) <=? DEFAULT_THRESHOLD)%N
+  && nodupb (node_ids (p_rc p)) && simple_edgesb (gedges (p_rc p)) && closedb (p_rc p)
+  && forallb (fun u => LGraph.mem u (node_ids (p_rc p))) (node_ids (p_pat p)).
+
 Definition t_variant (invert implicit_temp explicit_stage : bool) (strats : list N) (v : hostg * its) : tok :=
   match prepare invert implicit_temp (snd v) with
   | None => L [I (-1)]
   | Some p =>
       L [trc (negb implicit_temp) (p_rc p); tbool (p_flag p); tmolg (p_pat p);
-         tbool (hc_okb (fst v) p && wf_rcb (p_rc p) && wf_hostb (fst v));
+         tbool (hc_okb (fst v) p && wf_rcb (p_rc p) && wf_hostb (fst v) && (p_flag p || side_okb (fst v) p));
          tlist (t_strategy explicit_stage (fst v) p) strats]
   end.
 
